@@ -46,15 +46,18 @@ theorem C06_round_trip_setup (f : Fmt) (img : Img) (v : View) (hv : fromBytes f 
   rw [hwb, e2]
   exact Nat.min_le_right _ _
 
-/-- **Round trip, partial.**  The statement of `C06_round_trip` with the side condition
-`s.prd + j < SizeOfImage` strengthened to `s.prd + s.rs ≤ SizeOfImage` (the whole raw range of the
-section lies below SizeOfImage): `to_file` clamps the file size to SizeOfImage and *skips* every
-section whose raw range does not fit (`vec.get_mut(prd .. prd + rs)` is `None`), see
-`C06_round_trip_clamped_zero` and `C06_round_trip_counterexample`. -/
-theorem C06_round_trip_partial (f : Fmt) (img : Img) (v : View) (hv : fromBytes f .file img = .ok v)
+/-- Converting the mapped form back reproduces the original headers and every section's
+stored-and-mapped bytes at their file offsets.  `w` is any view constructed over the converted
+buffer (any placement, any base).
+
+(`to_file` clamps the file size to SizeOfImage; since the fix of `to_file` the part of a section's
+raw data that still fits is copied — hence the side condition `s.prd + j < SizeOfImage` —
+where formerly a section whose raw range ended beyond SizeOfImage was skipped entirely, see
+`C06_round_trip_formerly_failing`.) -/
+theorem C06_round_trip (f : Fmt) (img : Img) (v : View) (hv : fromBytes f .file img = .ok v)
     (hl : LoadableFile v) (base : Nat) (w : View) (hw : fromBytes f .view ⟨v.toView, base⟩ = .ok w) :
     (∀ i, i < sizeOfHeaders v.b → byteAt w.toFile i = byteAt v.b i) ∧
-    (∀ s ∈ v.secs, ∀ j, j < min s.vs s.rs → s.prd + s.rs ≤ sizeOfImage v.b →
+    (∀ s ∈ v.secs, ∀ j, j < min s.vs s.rs → s.prd + j < sizeOfImage v.b →
         byteAt w.toFile (s.prd + j) = byteAt v.b (s.prd + j)) := by
   obtain ⟨hwb, hsoh, hsoi, hsecs, hsize, hF, hs1, hFle⟩ := C06_round_trip_setup f img v hv hl base w hw
   obtain ⟨hload, hprd, hraw, _, _⟩ := hl
@@ -62,7 +65,7 @@ theorem C06_round_trip_partial (f : Fmt) (img : Img) (v : View) (hv : fromBytes 
     initVec_size _ _ _ hF hs1
   constructor
   · intro i hi
-    rw [toFile_eq, cfold_out, initVec_hdr _ _ _ hF hs1 _ (by omega), hwb]
+    rw [toFile_eq, cfold_out _ _ _ _ _ _ endClamp_le, initVec_hdr _ _ _ hF hs1 _ (by omega), hwb]
     · exact C06_to_view_headers f img v hv hload i hi
     · intro s hs
       rw [hsecs] at hs
@@ -70,38 +73,31 @@ theorem C06_round_trip_partial (f : Fmt) (img : Img) (v : View) (hv : fromBytes 
       omega
   · intro s hs j hj hfit
     obtain ⟨a1, a2, a3, a4, a5⟩ := hload.1 s hs
-    have hle : s.prd + s.rs ≤ w.fileSize := by
+    -- the byte lies inside the clamped file: below the largest raw end and below SizeOfImage
+    have hlt : s.prd + j < w.fileSize := by
       have := foldl_max_mem w.secs (fun s => wadd32 s.prd s.rs) (sizeOfHeaders w.b) s
         (by rw [hsecs]; exact hs)
       have h1 : wadd32 s.prd s.rs = s.prd + s.rs := Nat.mod_eq_of_lt a2
       rw [h1] at this
       unfold View.fileSize
       omega
-    rw [toFile_eq, cfold_in w.b Sec.prd Sec.rs Sec.va Sec.vs w.secs _ s (by rw [hsecs]; exact hs)
-      (by rw [hsecs]; exact hraw) a2 a1 (by rw [hvs]; exact hle) (by omega) j (by omega), hwb]
+    rw [toFile_eq, cfold_in_clamp w.b Sec.prd Sec.rs Sec.va Sec.vs w.secs _ s (by rw [hsecs]; exact hs)
+      (by rw [hsecs]; exact hraw) a2 a1 (by omega) j (by omega) (by rw [hvs]; exact hlt), hwb]
     exact C06_to_view_section f img v hv hload s hs j hj
 
-/-- The hypothesis added in `C06_round_trip_partial` is necessary: a section whose raw range ends
-beyond SizeOfImage is not copied back at all — every byte of its raw range is zero in the output
-(or beyond its end). -/
-theorem C06_round_trip_clamped_zero (f : Fmt) (img : Img) (v : View) (hv : fromBytes f .file img = .ok v)
-    (hl : LoadableFile v) (base : Nat) (w : View) (hw : fromBytes f .view ⟨v.toView, base⟩ = .ok w)
-    (s : Sec) (hs : s ∈ v.secs) (hbig : sizeOfImage v.b < s.prd + s.rs) (j : Nat) (hj : j < s.rs) :
-    byteAt w.toFile (s.prd + j) = 0 := by
-  obtain ⟨hwb, hsoh, hsoi, hsecs, hsize, hF, hs1, hFle⟩ := C06_round_trip_setup f img v hv hl base w hw
-  obtain ⟨hload, hprd, hraw, _, _⟩ := hl
-  obtain ⟨a1, a2, a3, a4, a5⟩ := hload.1 s hs
-  have hvs : (initVec w.fileSize w.b (sizeOfHeaders w.b)).size = w.fileSize :=
-    initVec_size _ _ _ hF hs1
-  rw [toFile_eq, cfold_skip w.b Sec.prd Sec.rs Sec.va Sec.vs w.secs _ s (by rw [hsecs]; exact hs)
-    (by rw [hsecs]; exact hraw) a2 (by rw [hvs]; omega) _ (by omega)]
-  apply initVec_zero _ _ _ hF hs1
-  have := hprd s hs
-  omega
+/-- Corollary (the variant that held before the fix of `to_file`): sections whose whole raw range
+lies below SizeOfImage. -/
+theorem C06_round_trip_partial (f : Fmt) (img : Img) (v : View) (hv : fromBytes f .file img = .ok v)
+    (hl : LoadableFile v) (base : Nat) (w : View) (hw : fromBytes f .view ⟨v.toView, base⟩ = .ok w) :
+    (∀ i, i < sizeOfHeaders v.b → byteAt w.toFile i = byteAt v.b i) ∧
+    (∀ s ∈ v.secs, ∀ j, j < min s.vs s.rs → s.prd + s.rs ≤ sizeOfImage v.b →
+        byteAt w.toFile (s.prd + j) = byteAt v.b (s.prd + j)) := by
+  obtain ⟨h1, h2⟩ := C06_round_trip f img v hv hl base w hw
+  exact ⟨h1, fun s hs j hj hfit => h2 s hs j hj (by omega)⟩
 
-/-- Non-vacuity of `C06_round_trip_partial`: the concrete file `tinyPe 2 226` (accepted, see the
-example in `Thm/C06.lean`) is `LoadableFile`, and its section has stored-and-mapped bytes and fits
-below SizeOfImage; by `C06_to_view_accepted` a view `w` exists for every 4-aligned base. -/
+/-- Non-vacuity: the concrete file `tinyPe 2 226` (accepted, see the example in `Thm/C06.lean`) is
+`LoadableFile` and its section has stored-and-mapped bytes below SizeOfImage; by
+`C06_to_view_accepted` a view `w` exists for every 4-aligned base. -/
 example : LoadableFile (tinyView 2 226) ∧
     ∀ s ∈ (tinyView 2 226).secs, 0 < min s.vs s.rs ∧ s.prd + s.rs ≤ sizeOfImage (tinyView 2 226).b := by
   constructor
@@ -109,7 +105,7 @@ example : LoadableFile (tinyView 2 226) ∧
     decide +kernel
   · decide +kernel
 
-/-! ### the statement as given is false -/
+/-! ### the input on which `to_file` used to lose a section -/
 
 /-- The file `tinyPe 1 225` (Lemmas/Convert.lean): SizeOfImage = 225, one section with
 VirtualAddress = 224, VirtualSize = 1, PointerToRawData = 224, SizeOfRawData = 2 — its raw range
@@ -118,47 +114,25 @@ def cexBytes : Bytes := tinyPe 1 225
 def cexV : View := tinyView 1 225
 def cexW : View := ⟨⟨cexV.toView, 0⟩, .pe32, .view, imageBaseField .pe32 cexV.toView⟩
 
-/-- **Counterexample to `C06_round_trip`** (second conjunct, `s` the only section, `j = 0`):
-all hypotheses hold, `s.prd + 0 = 224 < 225 = SizeOfImage`, the file has `aa` at offset 224 but
-`to_file` of the converted image has 0 there: `file_size` is clamped to SizeOfImage = 225, so
-`vec.get_mut(224 .. 226)` is `None` and the section is skipped. -/
-theorem C06_round_trip_counterexample :
+/-- Before the fix `to_file` answered 0 at offset 224 of this input (`file_size` is clamped to
+SizeOfImage = 225, `vec.get_mut(224 .. 226)` was `None` and the section was skipped) although all
+hypotheses of `C06_round_trip` hold with `s.prd + 0 = 224 < 225`; now the stored byte `aa` comes back. -/
+theorem C06_round_trip_formerly_failing :
     fromBytes .pe32 .file ⟨cexBytes, 0⟩ = .ok cexV ∧ LoadableFile cexV ∧
     fromBytes .pe32 .view ⟨cexV.toView, 0⟩ = .ok cexW ∧
-    ∃ s ∈ cexV.secs, ∃ j, j < min s.vs s.rs ∧ s.prd + j < sizeOfImage cexV.b ∧
-      byteAt cexW.toFile (s.prd + j) ≠ byteAt cexV.b (s.prd + j) := by
+    (⟨0, 0, 1, 224, 2, 224, 0⟩ : Sec) ∈ cexV.secs ∧ sizeOfImage cexV.b = 225 ∧
+    byteAt cexW.toFile 224 = 170 ∧ byteAt cexV.b 224 = 170 := by
   have h1 : fromBytes .pe32 .file ⟨cexBytes, 0⟩ = .ok cexV := tinyView_ok _ _ (by decide +kernel)
   have h2 : LoadableFile cexV := by unfold LoadableFile Loadable; decide +kernel
   have h3 : fromBytes .pe32 .view ⟨cexV.toView, 0⟩ = .ok cexW :=
     C06_to_view_accepted _ _ _ h1 h2 0 (by decide)
   have hs : (⟨0, 0, 1, 224, 2, 224, 0⟩ : Sec) ∈ cexV.secs := by decide +kernel
-  refine ⟨h1, h2, h3, _, hs, 0, by decide, by decide +kernel, ?_⟩
-  -- the model's answer, obtained from the general theorem rather than by evaluation
-  rw [C06_round_trip_clamped_zero _ _ _ h1 h2 _ _ h3 _ hs (by decide +kernel) 0 (by decide)]
-  decide +kernel
-
-theorem C06_round_trip_is_false :
-    ¬ ∀ (f : Fmt) (img : Img) (v : View) (_ : fromBytes f .file img = .ok v)
-      (_ : LoadableFile v) (base : Nat) (w : View) (_ : fromBytes f .view ⟨v.toView, base⟩ = .ok w),
-      (∀ i, i < sizeOfHeaders v.b → byteAt w.toFile i = byteAt v.b i) ∧
-      (∀ s ∈ v.secs, ∀ j, j < min s.vs s.rs → s.prd + j < sizeOfImage v.b →
-          byteAt w.toFile (s.prd + j) = byteAt v.b (s.prd + j)) := by
-  intro h
-  obtain ⟨h1, h2, h3, s, hs, j, hj, hlt, hne⟩ := C06_round_trip_counterexample
-  exact hne ((h _ _ _ h1 h2 _ _ h3).2 s hs j hj hlt)
-
-/-- Converting the mapped form back reproduces the original headers and every section's
-stored-and-mapped bytes at their file offsets.  `w` is any view constructed over the converted
-buffer (any placement, any base).
-
-FALSE as stated (`C06_round_trip_is_false`, witness `C06_round_trip_counterexample`): the side
-condition `s.prd + j < sizeOfImage v.b` does not make `to_file` copy a section whose raw range ends
-beyond SizeOfImage.  The true variant is `C06_round_trip_partial`. -/
-theorem C06_round_trip (f : Fmt) (img : Img) (v : View) (hv : fromBytes f .file img = .ok v)
-    (hl : LoadableFile v) (base : Nat) (w : View) (hw : fromBytes f .view ⟨v.toView, base⟩ = .ok w) :
-    (∀ i, i < sizeOfHeaders v.b → byteAt w.toFile i = byteAt v.b i) ∧
-    (∀ s ∈ v.secs, ∀ j, j < min s.vs s.rs → s.prd + j < sizeOfImage v.b →
-        byteAt w.toFile (s.prd + j) = byteAt v.b (s.prd + j)) := by
-  sorry
+  have hsoi : sizeOfImage cexV.b = 225 := by decide +kernel
+  have hb : byteAt cexV.b 224 = 170 := by decide +kernel
+  refine ⟨h1, h2, h3, hs, hsoi, ?_, hb⟩
+  -- from the general theorem rather than by evaluation
+  have := (C06_round_trip _ _ _ h1 h2 _ _ h3).2 _ hs 0 (by decide) (by rw [hsoi]; decide)
+  rw [← hb]
+  exact this
 
 end Pelite.Pe
